@@ -7,6 +7,7 @@ def main():
     args = [a for a in sys.argv[1:] if not a.startswith("--")]
     checks = None
     root, offset = "/tmp/seed", 0
+    own_first = "--own-first" in sys.argv
     for a in sys.argv[1:]:
         if a.startswith("--checks="): checks = a.split("=", 1)[1].split(",")
         if a.startswith("--root="): root = a.split("=", 1)[1]
@@ -24,10 +25,19 @@ def main():
                 if os.path.exists(os.path.join(src, f)): shutil.copy(os.path.join(src, f), os.path.join(dst, t))
             try: meta = json.load(open(os.path.join(src, "m%d_meta.json" % i)))
             except Exception: meta = {"property": pid}
-            r = subprocess.run([sys.executable, os.path.join(ROOT, "lib", "seedcheck.py"), os.path.join(dst, "patch.diff"), name] + (checks or ["all"]), capture_output=True, text=True)
-            print(r.stdout[-3000:], r.stderr[-500:])
-            try: res = json.load(open(os.path.join(ROOT, "work", "seedruns", name, "result.json")))
-            except Exception: res = {}
+            def run(cs):
+                r = subprocess.run([sys.executable, os.path.join(ROOT, "lib", "seedcheck.py"), os.path.join(dst, "patch.diff"), name] + cs, capture_output=True, text=True)
+                print(r.stdout[-3000:], r.stderr[-500:], flush=True)
+                try: return json.load(open(os.path.join(ROOT, "work", "seedruns", name, "result.json")))
+                except Exception: return {}
+            if own_first and not checks:
+                # the property's own check first; the other checks only when it misses the change
+                res = run([pid])
+                if not any(l.startswith("VIOLATION") and "no-failing-input-found" not in l for l in res.get(pid, {}).get("lines", [])):
+                    allp = [c["property_id"] for c in json.load(open(os.path.join(ROOT, "MANIFEST.json")))["checks"] if c["property_id"] != pid]
+                    res2 = run(allp); res2.update(res); res = res2
+            else:
+                res = run(checks or ["all"])
             det = {}
             for c, v in res.items():
                 viol = [l for l in v["lines"] if l.startswith("VIOLATION")]
